@@ -34,10 +34,11 @@ Theorem C14_pkcs8_ec_roundtrip :
     In c ec_curves ->
     scalar_width c = Some w ->
     curve_oid c = Some co ->
+    (0 < d)%N ->
     (d < order c)%N ->
     (order c <= 256 ^ N.of_nat w)%N ->
     marshal_pkcs8 (KEc c d pub) = Some bs ->
-    len_ok (blen bs) -> parse_pkcs8 base_mult order bs = Some (KEc c d (base_mult c d)).
+    (blen bs < 2147483648)%N -> parse_pkcs8 base_mult order bs = Some (KEc c d (base_mult c d)).
 Proof. exact pkcs8_ec_roundtrip. Qed.
 Print Assumptions C14_pkcs8_ec_roundtrip.
 
@@ -45,6 +46,6 @@ Theorem C14_pkcs8_rsa_roundtrip :
   forall (base_mult : keyalg -> N -> bytes) (order : keyalg -> N) (n e d p q dp dq qinv : N)
       (bs : bytes),
     marshal_pkcs8 (KRsa n e d p q dp dq qinv) = Some bs ->
-    len_ok (blen bs) -> parse_pkcs8 base_mult order bs = Some (KRsa n e d p q dp dq qinv).
+    (blen bs < 2147483648)%N -> parse_pkcs8 base_mult order bs = Some (KRsa n e d p q dp dq qinv).
 Proof. exact pkcs8_rsa_roundtrip. Qed.
 Print Assumptions C14_pkcs8_rsa_roundtrip.
